@@ -718,8 +718,10 @@ def main(argv):
     )
     ev = dict(property_id=prop, tier=tier, seed=seed, level=level, coverage=cov,
               assumptions=list(getattr(pm, "ASSUMPTIONS", [])), wall_s=round(wall, 1), violations=len(viol))
-    os.makedirs(os.path.join(VERIF, "evidence"), exist_ok=True)
-    with open(os.path.join(VERIF, "evidence", prop + ".json"), "w") as f:
+    # experiments on scratch copies (seeds, mutations) must not overwrite the committed evidence: VERIF_EVIDENCE_DIR
+    evd = os.environ.get("VERIF_EVIDENCE_DIR") or os.path.join(VERIF, "evidence")
+    os.makedirs(evd, exist_ok=True)
+    with open(os.path.join(evd, prop + ".json"), "w") as f:
         json.dump(ev, f, indent=1)
     log("== %s: %d/%d obligations discharged, %d violation(s), %d undecided, %.0fs -> exit %d" % (
         prop, n_dis, n_obl, len(viol), len(und), wall, exit_code))
